@@ -53,8 +53,14 @@ func checkC08(an *Analysis, add func(Violation)) {
 		if c.St.Op == model.GetDevices {
 			continue
 		}
-		if len(c.KFails) > 0 {
-			continue // the call could not get its own socket (an address the host does not have, ...): it never asked
+		notMine := false
+		for _, f := range c.KFails {
+			if f.Note == "injected" || strings.Contains(f.Err, "cannot assign requested address") {
+				notMine = true // the call could not get a socket at all (an address the host does not have): it never asked
+			}
+		}
+		if notMine {
+			continue
 		}
 		if !c.St.Op.HasReply() {
 			if c.Rec.Obs.Failed() {
